@@ -174,6 +174,16 @@ def build():
     # states: 0 Secure 1 Insecure 2 Bogus 3 Indeterminate
     st = {"Secure": 0, "Insecure": 1, "Bogus": 2, "Indeterminate": 3}
     defs.append(("vg_abort_state", "N", "%d%%N" % st[m.group(1)]))
+    # validate_msg: what the verdict of a positive answer starts from: the constant
+    # Secure (only the groups on the CNAME chain and the answering group count) or
+    # a fold over the states of all answer groups
+    vm = fn_body(ctx, "validate_msg")
+    n_const = len(re.findall(r"let\s+maybe_secure\s*=\s*ValidationState::Secure\s*;", vm))
+    n_fold = len(re.findall(r"let\s+maybe_secure\s*=\s*answers\s*\.iter\(\)\s*\.fold\(\s*ValidationState::Secure\s*,\s*\|acc,\s*g\|\s*\{?\s*map_maybe_secure\(g\.state\(\),\s*acc\)\s*\}?\s*,?\s*\)\s*;", vm))
+    if n_const + n_fold != 1:
+        raise GenError("validate_msg: initial maybe_secure not recognised (const %d, fold %d)" % (n_const, n_fold))
+    one(r"let\s+maybe_secure\s*=\s*map_maybe_secure\(state,\s*maybe_secure\);\s*if\s+maybe_secure\s*==\s*ValidationState::Bogus\s*\{\s*return\s+Ok\(\(maybe_secure,\s*ede\)\);", vm, "validate_msg chain state")
+    defs.append(("answer_init_is_const", "bool", "true" if n_const == 1 else "false"))
     ut = strip_comments(read("src/dnssec/validator/utilities.rs"))
     mm = fn_body(ut, "map_maybe_secure")
     one(r"^\s*if\s+let\s+ValidationState::Secure\s*=\s*result\s*\{\s*maybe_secure\s*\}\s*else\s*\{\s*result\s*\}\s*$", mm, "map_maybe_secure")
